@@ -15,8 +15,8 @@
    RFC 6020 does not say whether the escapes are substituted before or after the
    white-space rules (RFC 7950 says after; the code does it before).  Both orders
    are defined here and a string is *judged* only if they give the same value.
-   A backslash before any other character and a CR that is not part of CR LF are
-   outside the judged space as well.  The column of the opening quote is counted
+   A backslash before any other character and a CR that is not part of CR LF and
+   has a blank next to it are outside the judged space as well.  The column of the opening quote is counted
    in characters (RFC 6020 speaks of columns): a character of 2, 3 or 4 bytes
    before the quote on its line takes one column like any other.
 
@@ -71,7 +71,15 @@ RECURSIVE OtherEscFrom(_, _)
 OtherEscFrom(s, i) == IF i > Len(s) THEN FALSE
                       ELSE IF s[i] = BSL THEN (i = Len(s) \/ ~IsEsc(s[i + 1]) \/ OtherEscFrom(s, i + 2))
                       ELSE OtherEscFrom(s, i + 1)
-LoneCR(s) == \E i \in 1..Len(s) : s[i] = CR /\ (i = Len(s) \/ s[i + 1] # LF)
+\* A CR that is not part of CR LF: RFC 6020 does not say whether it is an ordinary character or a line break of its own.  The
+\* two readings give different values only if a blank stands next to it (directly, or with only CRs between): blanks before
+\* a line break and indentation after one are removed, nothing else is - a CR is neither space nor tab.  Only then is the
+\* string left unjudged; "a CR CR LF b" stands for itself under either reading.
+RECURSIVE PrevNonCR(_, _), NextNonCR(_, _)
+PrevNonCR(s, i) == IF i < 1 THEN EOFC ELSE IF s[i] = CR THEN PrevNonCR(s, i - 1) ELSE s[i]
+NextNonCR(s, i) == IF i > Len(s) THEN EOFC ELSE IF s[i] = CR THEN NextNonCR(s, i + 1) ELSE s[i]
+LoneCR(s) == \E i \in 1..Len(s) : /\ s[i] = CR /\ (i = Len(s) \/ s[i + 1] # LF)
+                                   /\ (IsBlank(PrevNonCR(s, i - 1)) \/ IsBlank(NextNonCR(s, i + 1)))
 
 DecodeStripFirst(s, qcol) == Subst(Strip(s, qcol))       \* RFC 7950 order
 DecodeSubstFirst(s, qcol) == Strip(Subst(s), qcol)       \* the other reading of RFC 6020
@@ -127,6 +135,21 @@ EdgeLineSet(I) == {ind \o c \o t : ind \in I, c \in EdgeConts, t \in EdgeTrails}
 EdgeFirst == {ind \o c \o t : ind \in {<< >>, <<SP>>}, c \in {<< >>, S2C("x")}, t \in EdgeTrails}
 Edge2(I, eol) == {f \o eol \o l : f \in EdgeFirst, l \in EdgeLineSet(I)}
 Edge3(I, J) == {f \o <<LF>> \o m \o <<LF>> \o l : f \in {<< >>, S2C("x "), S2C("x")}, m \in EdgeLineSet(J), l \in EdgeLineSet(I)}
+\* ---- characters that are white space to Unicode but ordinary characters to YANG (YangChars!UniBlanks), and a CR that is not
+\* part of a line break, at the edges and in the middle of the lines of a multi-line double-quoted string (shared by C08 and
+\* C10).  RFC 6020 6.1.3 removes space and tab characters only: x stays wherever it is, the blanks that a rule reaches
+\* go (blanks before the line break even when x stands before them; indentation up to the quote column, but nothing behind an x).
+ExoChars == UniBlanks \cup {BOM, CR}
+ExoTrail(x) == {<< >>, <<x>>, <<SP, x>>, <<x, SP>>, <<x, TAB, x>>, <<SP, x, SP, TAB>>}
+ExoLead(x, q) == {<< >>, <<x>>, Spaces(q) \o <<x>>, <<x>> \o Spaces(q), <<SP, x, SP>>, <<TAB, x>>, Spaces(q + 1)}
+\* two lines: content, x around the line break, x in and around the indentation of the second line, x before the closing quote
+Exo2(x, q, eol, wide) == {f \o t1 \o eol \o ld \o S2C("b") \o t2 :
+                           f \in (IF wide THEN {<< >>, S2C("a"), S2C("a") \o <<x>> \o S2C("c")} ELSE {<< >>, S2C("a") \o <<x>> \o S2C("c")}),
+                           t1 \in ExoTrail(x), ld \in ExoLead(x, q), t2 \in (IF wide THEN {<< >>, <<x>>, <<x, SP>>} ELSE {<< >>, <<x, SP>>})}
+\* three lines: the same around an inner line, which may consist of x and blanks only
+Exo3(x, q, eol) == {S2C("a") \o eol \o ld \o m \o t \o eol \o Spaces(q) \o S2C("c") :
+                     ld \in {<< >>, <<x>>, Spaces(q) \o <<x>>, <<SP, x, SP>>}, m \in {<< >>, S2C("m"), S2C("m") \o <<x>> \o S2C("n")},
+                     t \in {<< >>, <<x>>, <<x, SP>>, <<SP, x>>}}
 \* a source cut after its last line break
 RECURSIVE LastLfIn(_, _)
 LastLfIn(s, i) == IF i < 1 THEN 0 ELSE IF s[i] = LF THEN i ELSE LastLfIn(s, i - 1)
